@@ -4,7 +4,7 @@ CONSTANTS
   Vals = {"v0", "v1"}
   NChunks = 2
   AutoChoices = {{"P1"}}
-  HwChoices = {{"P1", "P2"}}
+  HwChoices = {{"P2"}}
   NoDefChoices = {{"P1"}}
   CfgVals = {"v1"}
   Faults = {}
